@@ -279,25 +279,14 @@ def _strategy():
                   'start'),
         hooks=True, exec_fail=True, children=1, kill_cmd=True,
         signal_cmd=True, respawn_false=True, rm=True, max_ops=24,
-        set_other=True, job_control=True, config=True, ondemand=True)
+        set_other=True, job_control=True, config=True, ondemand=True,
+        never_exec=True)
 
     @st.composite
     def case(draw):
         c = draw(base)
         if draw(st.booleans()):
             c["periodic"] = 1.0
-        # "fail to spawn": a command that can never be executed, and the
-        # documented max_retry values (-1 = retry indefinitely)
-        if draw(st.integers(0, 5)) == 0:
-            for wc in c["watchers"]:
-                if draw(st.booleans()):
-                    wc["max_retry"] = draw(st.sampled_from([-1, -1, 0, 1, 3]))
-        if draw(st.integers(0, 5)) == 0:
-            c["default_beh"] = {"react": "die", "delay": 0.0,
-                                "exec_fail": draw(st.sampled_from(
-                                    [True, True, 'value']))}
-            if draw(st.booleans()):
-                c["tape"] = c.get("tape", [])[:draw(st.integers(0, 4))]
         return c
     return case()
 
